@@ -38,7 +38,7 @@ ASSUMPTIONS = [
     "removing the last key of a section is hand-edited as deleting the line and the then-empty section header",
     "values containing line continuations are not used for --list-items comparisons",
 ]
-REQUIRED = {"colon_value:make_config_parser": 8, "invalid:add_twice:make_config_parser": 2, "invalid:add_twice_ws:make_config_parser": 2, "remove_then_add": 5, "override_empty_value": 3, "same_key_two_sections": 4, "valid": 80, "invalid": 30, "op:override": 60, "op:remove": 40, "op:add": 40, "whitespace_key": 40,
+REQUIRED = {"padded_value:main": 5, "padded_value:ConfigParser": 5, "colon_value:make_config_parser": 8, "invalid:add_twice:make_config_parser": 2, "invalid:add_twice_ws:make_config_parser": 2, "remove_then_add": 5, "override_empty_value": 3, "same_key_two_sections": 4, "valid": 80, "invalid": 30, "op:override": 60, "op:remove": 40, "op:add": 40, "whitespace_key": 40,
             "removes_last_key": 5, "repeated_override": 10, "route:ConfigParser": 30, "route:make_config_parser": 30,
             "section:Table-Form": 5, "section:Species": 5, "listing": 40}
 
@@ -59,8 +59,16 @@ def _ws(draw, key):
     return "".join(out).strip() if how == "spaces" else "".join(out)
 
 
+def _pad(draw, val):
+    """the value as a user may type it after the '=': with blanks around it (not part of the value, as in a file)"""
+    how = draw(st.sampled_from(["", "", "", "lead", "trail", "both"]))
+    if not val or "\n" in val:
+        return val
+    return {"": val, "lead": " " + val, "trail": val + "  ", "both": "  " + val + " "}[how]
+
+
 INVALID = ["override_missing_key", "override_missing_section", "remove_missing_key", "add_existing", "add_existing_ws", "add_twice",
-           "add_twice_ws", "remove_twice"]
+           "add_twice_ws", "remove_twice", "override_bad_placeholder", "add_bad_placeholder"]
 NOTES = ["Notes", [["author", "someone"], ["comment", "free text 1"], ["scale", "2.5"]]]
 
 
@@ -141,7 +149,7 @@ def _case(draw, targets=None, invalid=False, repeat=False, cross=False, route=No
                 val = draw(st.sampled_from(pool))
             else:
                 val = v
-            ops.append({"op": "override", "section": n, "key0": k, "key": _ws(draw, k), "value": val})
+            ops.append({"op": "override", "section": n, "key0": k, "key": _ws(draw, k), "value": _pad(draw, val)})
             used.add((n, k))
         elif kind == "remove":
             cand = [(n, k, v) for n, k, v in keys if (n, k) not in used and n in (
@@ -166,7 +174,7 @@ def _case(draw, targets=None, invalid=False, repeat=False, cross=False, route=No
                 k, val = draw(st.sampled_from(["author", "comment"])), "text %d" % draw(st.integers(0, 9))
             if (sec, k) in used or any(nn == sec and "".join(kk.split()) == k for nn, kk, _ in keys):
                 continue
-            ops.append({"op": "add", "section": sec, "key0": k, "key": _ws(draw, k), "value": val})
+            ops.append({"op": "add", "section": sec, "key0": k, "key": _ws(draw, k), "value": _pad(draw, val)})
             used.add((sec, k))
     if invalid:
         why = invalid if isinstance(invalid, str) else draw(st.sampled_from(INVALID))
@@ -177,6 +185,11 @@ def _case(draw, targets=None, invalid=False, repeat=False, cross=False, route=No
             bad = {"op": "override", "section": "Nowhere", "key0": k, "key": k, "value": v}
         elif why == "remove_missing_key":
             bad = {"op": "remove", "section": n, "key0": "zz" + k, "key": "zz" + k}
+        elif why == "override_bad_placeholder":
+            # the same text typed into the file is a configuration error (malformed ${...})
+            bad = {"op": "override", "section": n, "key0": k, "key": k, "value": draw(st.sampled_from(["as.buck ${A 2 3", "as.constant $x", "${"]))}
+        elif why == "add_bad_placeholder":
+            bad = {"op": "add", "section": "Pair", "key0": "Xq-Zq", "key": "Xq-Zq", "value": draw(st.sampled_from(["as.buck ${A 2 3", "as.constant $x"]))}
         elif why == "remove_twice":
             # the second removal finds nothing to remove (only expressible through ConfigParser(overrides=...):
             # the command line collapses repeated options for one item)
@@ -234,7 +247,8 @@ def _case(draw, targets=None, invalid=False, repeat=False, cross=False, route=No
     if not ops:
         n, k, v = draw(st.sampled_from(editable))
         ops.append({"op": "override", "section": n, "key0": k, "key": _ws(draw, k), "value": v})
-    route = route or (draw(st.sampled_from(["ConfigParser", "make_config_parser"])) if not cross else "make_config_parser")
+    route = route or (draw(st.sampled_from(["ConfigParser", "make_config_parser", "main"])) if not cross else
+                      draw(st.sampled_from(["make_config_parser", "main"])))
     if any(o.get("invalid") == "remove_twice" for o in ops):
         route = "ConfigParser"
     return {"model": m, "ops": ops, "route": route, "notes": notes}
@@ -350,8 +364,9 @@ def _expected_items(edited):
     scale = dict((k, v) for n, ents in edited if n == "Notes" for k, v in ents).get("scale")
     for n, ents in edited:
         for k, v in ents:
+            v = v.strip()                                           # blanks around a value are not part of it ...
             if scale is not None:
-                v = v.replace("${Notes:scale}", scale)      # values are reported with place-holders resolved
+                v = v.replace("${Notes:scale}", scale.strip())      # ... and values are reported with place-holders resolved
             items.append(("%s:%s" % (n, _norm(k)), v))
     return sorted(items)
 
@@ -372,6 +387,8 @@ def check_case(case):
     cls.extend(sorted(set("section:" + o["section"].split(":")[0] for o in ops)))
     if any(o["key"] != o["key0"] for o in ops):
         cls.append("whitespace_key")
+    if any(o.get("value") and o["value"] != o["value"].strip() for o in ops):
+        cls.append("padded_value:" + route)
     if stats["removes_last_key"]:
         cls.append("removes_last_key")
     if any(o.get("readd") for o in ops):
@@ -396,8 +413,8 @@ def check_case(case):
         mk = None
     if edited is None:
         # invalid operation -> configuration error
-        if route == "cli":
-            got = anymodel.cli_outcome(text, target, _cli_args(ops))
+        if route in ("cli", "main"):
+            got = anymodel.cli_outcome(text, target, _cli_args(ops), inproc=route == "main")
         else:
             got = anymodel.outcome_from_parser(mk, target)
         if got[0] != "config_error":
@@ -411,15 +428,15 @@ def check_case(case):
         return {"v": [], "cls": cls, "nt": False, "skip": True}
     base = anymodel.outcome(text, target)
     changes = base != want
-    if route == "cli":
-        got = anymodel.cli_outcome(text, target, _cli_args(ops))
+    if route in ("cli", "main"):
+        got = anymodel.cli_outcome(text, target, _cli_args(ops), inproc=route == "main")
     else:
         got = anymodel.outcome_from_parser(mk, target)
     if not anymodel.same_outcome(got, want):
         v.append(("output_differs", "with operations: %r\nhand-edited: %r\n%s" % (
             got[:1] + (got[1][:300],), want[:1] + (want[1][:300],), ctx)))
     # listing of the edited file
-    if route != "cli" and not any("\n" in val for _, e in edited for _, val in e):
+    if route not in ("cli", "main") and not any("\n" in val for _, e in edited for _, val in e):
         try:
             cp = mk()
             items = sorted(_query_actions._list_items(cp))
